@@ -33,3 +33,12 @@ Definition split_off_windows (len cap a b : nat) : vwin * vwin :=
     else (mkVwin 0 remaining remaining, mkVwin remaining range_len (cap - remaining)).
 
 Definition wview {A} (buf : list A) (w : vwin) : list A := firstn (wlen w) (skipn (woff w) buf).
+
+(* ---------------------------------------------------------------- split_at_spare / into_flattened *)
+(* split_at_spare(_mut): the initialised part and the spare capacity of one buffer *)
+Definition spare_windows (len cap : nat) : vwin * vwin :=
+  (mkVwin 0 len len, mkVwin len 0 (cap - len)).
+
+(* into_flattened of a vector of [T; n]: the same buffer counted in elements of T *)
+Definition flatten_window (w : vwin) (n : nat) : vwin := mkVwin (woff w * n) (wlen w * n) (wcap w * n).
+Definition flatten_list {A} (l : list (list A)) : list A := concat l.
